@@ -332,6 +332,11 @@ def _alphabet():
         reg('alk' + tag, 'AtLeastKSubstitution', const(n, k), 3, 3)
         reg('amk' + tag, 'AtMostKSubstitution', const(n, k), 3, 3)
         reg('abk' + tag, 'AnythingButKSubstitution', const(n, k), 4, 3)
+    # the general linear substitution behind the four threshold ones, with each
+    # of its six operators, and the conjunction (public functions of the module)
+    for op_, tag in (('==', 'eq'), ('<', 'lt'), ('>', 'gt'), ('<=', 'le'), ('>=', 'ge'), ('!=', 'ne')):
+        reg('lin' + tag, 'LinearSubstitution', const(2, op_, 1), 2, 2)
+    reg('and2', 'AndSubstitution', const(2), 2, 2)
     reg('shufid', 'Shuffle',
         lambda F: ([[1] * F.number_of_variables(), list(range(1, F.number_of_variables() + 1)),
                     list(range(len(F)))], {}), 1, 1)
